@@ -348,6 +348,9 @@ func c07build(c GCase) *c07graph {
 		MemoExpr:    c.MemoExpr,
 		ShareLeaves: true,
 		ShareExprs:  shareExprs,
+		// a fifth of the grammars use a hand-written terminal with a node type of its own (not the ones with a RightTrim:
+		// the K1 signature is defined on the library's own node types)
+		UserLeaves: run.Hash(c.G.String())%5 == 1 && len(rtrimOperand) == 0,
 		// every sequence carries the library's own list interpreter: the trees are evaluated (twice) after the parse, and
 		// evaluation must not change what the parsers returned either
 		Interp: interpreter.Array(),
